@@ -390,6 +390,35 @@ ts("fixed-reverse-groupby", "C04 C13", "C04-m12", API, "                _prepare
 ts("fixed-duplicates-groupby", "C04 C06 C02", "C06-m14", API, "    for value, group in itt.groupby(pairs, key=lambda pair: pair[0]):", "    for value, group in itt.groupby(sorted(pairs), key=lambda pair: pair[0]):", "single-pass duplicate detection over sorted pairs")
 ts("fixed-discover-mask", "C19", "C19-m13", DISC, "for luids in uri_prefix_to_luids.values())", "for luids in map(uri_prefix_to_luids.__getitem__, uri_prefixes))", "mask aligned with the sorted names")
 
+ts("fixed-index-pattern-first", "C01 C05", "C01-m12", API, "            if prefix in self.pattern_map:\n                return\n            self.pattern_map[prefix] = record.pattern\n", "            if prefix not in self.pattern_map:\n                self.pattern_map[prefix] = record.pattern\n", "flattened _index without the early return")
+ts("fixed-fallback-helper", "C01 C03 C07 C08", "C01-m13", API, "        if reference and all(reference):\n", "        if reference is not None:\n", "shared fallback helper, plain None test")
+ts("fixed-add-record-guards", "C01 C05", "C01-m14", API, "        ((prefix, *_),) = matched\n        existing_record = self.records[bisect_left([r.prefix for r in self.records], prefix)]\n", "        (key,) = matched\n        existing_record = next(r for r in self.records if r._key == key)\n", "guard-clause add_record with the linear lookup")
+ts("fixed-raise-on-duplicates", "C02 C04 C10", "C02-m12", API, "            _raise_on_duplicates(records)\n\n        self.delimiter = delimiter\n        self.records = sorted(records, key=lambda r: r.prefix)\n", "            records = sorted(records, key=lambda r: r.prefix)\n            _raise_on_duplicates(records)\n\n        self.delimiter = delimiter\n        self.records = sorted(records, key=lambda r: r.prefix)\n", "hoisted duplicate check on the materialised list")
+ts("fixed-merge-indexes", "C02 C05 C01", "C02-m13", API, "self._index_prefix(prefix_synonym, record)", "self._index_prefix(prefix_synonym, into)", "merge-and-index with the right record")
+ts("fixed-standardize-curie-direct", "C03 C06", "C03-m12", API, "curie.rpartition(self.delimiter)", "curie.partition(self.delimiter)", "direct standardisation at the first delimiter")
+ts("fixed-init-sorted-name", "C03 C01 C10", "C03-m14", API, "self.synonym_to_prefix = _get_prefix_synmap(records)", "self.synonym_to_prefix = _get_prefix_synmap(sorted_records)", "every table from the sorted list")
+ts("fixed-init-self-records", "C06 C01 C10", "C06-m12", API, "self.reverse_prefix_map = _get_reverse_prefix_map(records)", "self.reverse_prefix_map = _get_reverse_prefix_map(self.records)", "every table from self.records")
+ts("fixed-duplicates-helper", "C04 C02", "C04-m13", API, "        values_2 = get_values(record_2)\n", "        values_2 = list(get_values(record_2))\n", "iterator materialised before repeated membership tests")
+ts("fixed-match-partial", "C05 C01", "C05-m13", API, "*(among(synonym, record.prefix_synonyms) for synonym in external.uri_prefix_synonyms)", "*(among(synonym, record.uri_prefix_synonyms) for synonym in external.uri_prefix_synonyms)", "list-literal match with the right attribute")
+ts("fixed-chain-partial-copy", "C05 C10 C09", "C05-m14", API, "add_record(record.model_copy())", "add_record(record.model_copy(deep=True))", "pipeline chain with deep copies")
+ts("fixed-match-normalised", "C06 C05 C09", "C06-m13", API, "                if uri_prefix in uri_prefixes\n", "                if norm(uri_prefix) in uri_prefixes\n", "normalise-once match with both sides normalised")
+ts("fixed-std-prefix-or", "C07 C06 C08", "C07-m12", API, "        return self.synonym_to_prefix.get(prefix) or fallback\n", "        rv = self.synonym_to_prefix.get(prefix)\n        return fallback if rv is None else rv\n", "restructured standardize_prefix with a None test")
+ts("fixed-parse-uri-flat", "C08 C01", "C08-m12", API, "        if return_none:\n            return None\n        if strict:\n            raise CompressionError(uri)\n", "        if strict:\n            raise CompressionError(uri)\n        if return_none:\n            return None\n", "flattened parse_uri with strict first")
+ts("fixed-std-curie-except", "C08 C06", "C08-m13", API, "        except StandardizationError as e:", "        except (StandardizationError, NoCURIEDelimiterError) as e:", "restructured standardize_curie catching the delimiter error too")
+ts("fixed-chain-bridge", "C09 C05", "C09-m14", API, "        if not merge:\n            raise ValueError(_describe_matches(matched))\n", "        if not merge or len(matched) > 1:\n            raise ValueError(_describe_matches(matched))\n", "guard-clause add_record that still rejects bridging records")
+ts("fixed-with-uri-prefix", "C10 C12", "C10-m13", REC, "    return record.model_copy(\n        update={\"uri_prefix\": uri_prefix, \"uri_prefix_synonyms\": sorted(uri_prefix_synonyms)}\n    )", "    return record.model_copy(\n        update={\"uri_prefix\": uri_prefix, \"uri_prefix_synonyms\": sorted(uri_prefix_synonyms)}, deep=True\n    )", "shared upgrade helper with a deep copy")
+ts("fixed-transitive-helper", "C12", "C12-m12", REC, "    keys = (str(key) for key in remapping)\n", "    keys = {str(key) for key in remapping}\n", "transitivity helper with a set of keys")
+ts("fixed-upgrade-owners", "C12 C10", "C12-m13", REC, "    owners = converter.reverse_prefix_map\n", "    owners = dict(converter.reverse_prefix_map)\n", "shared upgrade helper with its own copy of the index")
+ts("fixed-from-rdflib-manager", "C13", "C13-m14", API, "            manager = NamespaceManager(graph_or_manager)\n", "            manager = graph_or_manager.namespace_manager\n", "normalised to the graph's own manager")
+ts("fixed-written-prefixes", "C14 C10", "C14-m12", API, "    prefixes = record.prefix_synonyms if include_synonyms else []\n    prefixes += [record.prefix]\n    return prefixes\n", "    prefixes = record.prefix_synonyms if include_synonyms else []\n    return [record.prefix, *prefixes]\n", "shared prefix helper without the in-place +=")
+ts("fixed-from-parts", "C15", "C15-m12", API, "return cls._from_parts(prefix, identifier, converter)", "return cls._from_parts(prefix, identifier, None, converter)", "shared constructor helper with the converter in its slot")
+ts("fixed-prefix-validate", "C15 C06", "C15-m13", API, "        if not standardized:\n", "        if standardized is None:\n", "Prefix validation with a None test")
+ts("fixed-bind-flags", "C16 C08", "C16-m13", API, "    if passthrough:\n        return partial(func, passthrough=True)\n    if strict:\n        return partial(func, strict=True)\n    return func\n", "    if strict:\n        return partial(func, strict=True)\n    if passthrough:\n        return partial(func, passthrough=True)\n    return func\n", "flag binder with strict taking precedence")
+ts("fixed-resplit-helper", "C17", "C17-m12", RES, "    prefix, _, swallowed = prefix.partition(delimiter)\n    if swallowed:\n", "    prefix, found, swallowed = prefix.partition(delimiter)\n    if found:\n", "re-split helper testing whether a delimiter was found")
+ts("fixed-merge-extended", "C17 C05 C01", "C17-m13", API, "        extended = _extend_sorted(\n            into.uri_prefix_synonyms,", "        extended |= _extend_sorted(\n            into.uri_prefix_synonyms,", "merge reports whether either side was extended")
+ts("fixed-discover-sorted-visit", "C19", "C19-m12", DISC, "        for uri_prefix, luids in uri_prefix_to_luids.items()\n", "        for uri_prefix, luids in sorted(uri_prefix_to_luids.items())\n", "sorted visiting order plus the sorted numbering")
+ts("fixed-w3c-spaces", "C20", "C20-m13", W3C, "    spaces = map(str.isspace, curie)\n", "    spaces = list(map(str.isspace, curie))\n", "whitespace flags materialised")
+
 # ------------------------------------------------------------------------------------- slips made while refactoring (round 4)
 bs("slip-lookup-helper-order", "C12", "C12-r16", REC, "for s in chain((preferred,), synonyms):", "for s in chain(synonyms, (preferred,)):", "C12-D5", "shared lookup helper consults synonyms first")
 bs("slip-groupby-sort-key", "C13", "C13-r16", API, "pairs = sorted((uri_prefix, curie_prefix) for curie_prefix, uri_prefix in prefix_map.items())", "pairs = sorted(((uri_prefix, curie_prefix) for curie_prefix, uri_prefix in prefix_map.items()), key=itemgetter(0))", "C13-D4", "pairs sorted by URI prefix only")
